@@ -13,11 +13,11 @@ import XlModel.Settings
 namespace XlModel.Protection
 open XlModel XlModel.Settings
 
-inductive Kind | sheet | workbook
+inductive PKind | sheet | workbook
   deriving DecidableEq, Repr
 
 /-- the stored protection record (`xlsxSheetProtection` / `xlsxWorkbookProtection`) -/
-structure Rec where
+structure PRec where
   alg : List Char
   password : List Char      -- legacy XOR attribute (sheets only)
   hash : List Char
@@ -39,20 +39,20 @@ def Opts.field (o : Opts) (n : String) : Bool :=
   | some b => b
   | none => false
 
-def flagTable : Kind → List (String × String × Bool)
+def flagTable : PKind → List (String × String × Bool)
   | .sheet => Facts.C18.sheetProtFlags
   | .workbook => Facts.C18.workbookProtFlags
 
-def constTable : Kind → List (String × Bool)
+def constTable : PKind → List (String × Bool)
   | .sheet => Facts.C18.sheetProtConsts
   | .workbook => Facts.C18.workbookProtConsts
 
-def spinOf : Kind → Nat
+def spinOf : PKind → Nat
   | .sheet => Facts.C18.sheetProtectionSpinCount
   | .workbook => Facts.C18.workbookProtectionSpinCount
 
 /-- the flag part of the composite literal in `Protect*` -/
-def flagsOf (k : Kind) (o : Opts) : List (String × Bool) :=
+def flagsOf (k : PKind) (o : Opts) : List (String × Bool) :=
   (flagTable k).map (fun t => (t.1, xor t.2.2 (o.field t.2.1))) ++ constTable k
 
 abbrev Hash := List Char → List Char → List Char → List Char
@@ -65,28 +65,31 @@ def iso (H : Hash) (alg pw salt : List Char) : Option (List Char) :=
 
 def sha512 : List Char := "SHA-512".toList
 
+/-- `if opts.AlgorithmName == "" { opts.AlgorithmName = "SHA-512" }` (ProtectWorkbook) -/
+def wbAlg (a : List Char) : List Char := if a.isEmpty then sha512 else a
+
 /-- Spec: the record a protect call with options `o` asks for (`none` = the call is
 rejected: unsupported algorithm or bad password length) -/
-def recordOf (k : Kind) (H : Hash) (salt : List Char) (o : Opts) : Option Rec :=
-  let base : Rec := ⟨[], [], [], [], 0, flagsOf k o⟩
+def recordOf (k : PKind) (H : Hash) (salt : List Char) (o : Opts) : Option PRec :=
+  let base : PRec := ⟨[], [], [], [], 0, flagsOf k o⟩
   if o.pw.isEmpty then some base
   else match k with
     | .sheet =>
       if o.alg.isEmpty then some { base with password := passwdOf o.pw }
       else (iso H o.alg o.pw salt).map fun h => { base with alg := o.alg, hash := h, salt := salt, spin := spinOf k }
     | .workbook =>
-      let a := if o.alg.isEmpty then sha512 else o.alg
+      let a := wbAlg o.alg
       (iso H a o.pw salt).map fun h => { base with alg := a, hash := h, salt := salt, spin := spinOf k }
 
 /-- Impl: `ProtectSheet` / `ProtectWorkbook`, statement by statement: make sure a record
 exists, replace it by the literal with the flags, then add the password part; on a hash
 error the call returns the error with the flags-only record already stored. Result:
 new state and whether the call returned nil. -/
-def protect (k : Kind) (H : Hash) (salt : List Char) (prev : Option Rec) (o : Opts) : Option Rec × Bool :=
-  let _prev : Rec := match prev with
+def protect (k : PKind) (H : Hash) (salt : List Char) (prev : Option PRec) (o : Opts) : Option PRec × Bool :=
+  let _prev : PRec := match prev with
     | some r => r
     | none => ⟨[], [], [], [], 0, []⟩            -- `new(xlsx…Protection)` (workbook only; dead value)
-  let base : Rec := ⟨[], [], [], [], 0, flagsOf k o⟩   -- `= &xlsx…Protection{…}`
+  let base : PRec := ⟨[], [], [], [], 0, flagsOf k o⟩   -- `= &xlsx…Protection{…}`
   if o.pw.isEmpty then (some base, true)
   else match k with
     | .sheet =>
@@ -95,13 +98,13 @@ def protect (k : Kind) (H : Hash) (salt : List Char) (prev : Option Rec) (o : Op
         | some h => (some { base with alg := o.alg, hash := h, salt := salt, spin := spinOf k }, true)
         | none => (some base, false)
     | .workbook =>
-      let a := if o.alg.isEmpty then sha512 else o.alg
+      let a := wbAlg o.alg
       match iso H a o.pw salt with
       | some h => (some { base with alg := a, hash := h, salt := salt, spin := spinOf k }, true)
       | none => (some base, false)
 
 /-- Spec: does password argument `pw` (or its absence) remove the protection `st`? -/
-def verifies (k : Kind) (H : Hash) (st : Option Rec) (pw : Option (List Char)) : Bool :=
+def verifies (k : PKind) (H : Hash) (st : Option PRec) (pw : Option (List Char)) : Bool :=
   match pw with
   | none => true
   | some p =>
@@ -115,7 +118,7 @@ def verifies (k : Kind) (H : Hash) (st : Option Rec) (pw : Option (List Char)) :
       else iso H r.alg p r.salt == some r.hash
 
 /-- Impl: `UnprotectSheet` / `UnprotectWorkbook`: new state and whether it returned nil -/
-def unprotect (k : Kind) (H : Hash) (st : Option Rec) (pw : Option (List Char)) : Option Rec × Bool :=
+def unprotect (k : PKind) (H : Hash) (st : Option PRec) (pw : Option (List Char)) : Option PRec × Bool :=
   match pw with
   | none => (none, true)
   | some p =>
